@@ -190,6 +190,11 @@ inline void makeHtmlRoot(const string& tmp) {
   for (const char* f : inside) writeFile(tmp + "/root/html/" + f, string("IN:") + f + "\n");
   const char* outside[] = {"index.html", "x.js", "a/index.html", "a/x.js", "a/a/x.js", "a/a/index.html"};
   for (const char* f : outside) writeFile(tmp + "/root/" + f, string("OUT:") + f + "\n");
+  // siblings of the root whose names start with the root's name (reached when the URI is glued to the root path
+  // without a separating slash)
+  const char* siblings[] = {"htmlx.js", "html.js", "htmlindex.html", "html-old/x.js", "html-old/index.html", "html-old/a/x.js",
+                            "htmla/x.js", "htmla/index.html", "html.old/x.js", "html%2fx.js"};
+  for (const char* f : siblings) writeFile(tmp + "/root/" + f, string("OUT:sibling:") + f + "\n");
   // one level further up as well
   writeFile(tmp + "/x.js", "OUT:../x.js\n");
   writeFile(tmp + "/index.html", "OUT:../index.html\n");
